@@ -54,16 +54,25 @@ class TrX(Tr):
         if stmts and isinstance(stmts[0], ast.If):
             st = stmts[0]
             t = st.test
-            # if (x := E) <op> C:   ==>   x = E ; if x <op> C:
-            if isinstance(t, ast.Compare) and isinstance(t.left, ast.NamedExpr):
-                ne = t.left
-                if any(isinstance(n, ast.NamedExpr) for c in t.comparators for n in ast.walk(c)):
-                    raise Unsupported("walrus on the right of a comparison")
-                asg = ast.Assign(targets=[ast.Name(id=ne.target.id, ctx=ast.Store())], value=ne.value)
-                st2 = copy.copy(st)
-                st2.test = ast.Compare(left=ast.Name(id=ne.target.id, ctx=ast.Load()), ops=t.ops,
-                                       comparators=t.comparators)
-                return s.block([asg, st2] + list(stmts[1:]), env, k)
+            # if (x := E) <op> C:  or  if C0 <op> (x := E) <op> C1 ...:   ==>   x = E ; if ... x ...:
+            # sound when the walrus is the first or second operand of the (chained) comparison (both are
+            # always evaluated), every operand before it is a constant, and no other operand has a walrus
+            if isinstance(t, ast.Compare):
+                operands = [t.left] + list(t.comparators)
+                idx = [i for i, o in enumerate(operands) if isinstance(o, ast.NamedExpr)]
+                if len(idx) == 1 and idx[0] <= 1 and all(isinstance(o, ast.Constant) for o in operands[:idx[0]]):
+                    ne = operands[idx[0]]
+                    others = operands[:idx[0]] + operands[idx[0] + 1:]
+                    if any(isinstance(n, ast.NamedExpr) for o in others for n in ast.walk(o)) or \
+                            any(isinstance(n, ast.NamedExpr) for n in ast.walk(ne.value)):
+                        raise Unsupported("nested walrus")
+                    if any(isinstance(n, ast.Name) and n.id == ne.target.id for o in others for n in ast.walk(o)):
+                        raise Unsupported("walrus target read in the same comparison")
+                    asg = ast.Assign(targets=[ast.Name(id=ne.target.id, ctx=ast.Store())], value=ne.value)
+                    operands[idx[0]] = ast.Name(id=ne.target.id, ctx=ast.Load())
+                    st2 = copy.copy(st)
+                    st2.test = ast.Compare(left=operands[0], ops=t.ops, comparators=operands[1:])
+                    return s.block([asg, st2] + list(stmts[1:]), env, k)
             if any(isinstance(n, ast.NamedExpr) for n in ast.walk(t)):
                 raise Unsupported("walrus in an unsupported position")
         return super().block(stmts, env, k)
